@@ -235,5 +235,11 @@ func (lp *logProcessor[INPUT, OUTPUT]) fetchLogWithIK(ctx context.Context, store
 		}
 	}
 
-	return log, pointer.For(log.Data.(OUTPUT)), nil
+	output, ok := log.Data.(OUTPUT)
+	if !ok {
+		// the key was used for a write of another kind (only reachable when the stored log has no idempotency hash)
+		return nil, nil, newErrInvalidIdempotencyInputs(log.IdempotencyKey, log.IdempotencyHash, ledger.ComputeIdempotencyHash(parameters.Input))
+	}
+
+	return log, pointer.For(output), nil
 }
